@@ -90,8 +90,8 @@ theorem processAction_stutter (c : CS) (o : Oracle) (tmo : Option Time) (hab : c
     simp only [Option.getD_some]; unfold Time at *; omega
   simp only [hnd, ↓reduceIte, h.conn, bne_self_eq_false, Bool.false_eq_true]
   rw [onRun_eq]
-  have hil := innerLoop_stalled c.env.now 63 { c.dev with wake := none } a o pat hst h.buf h.xm
-  rw [hil]
+  have hil := innerLoop_stalled c.env.now (depthB (topCtx a).block) { c.dev with wake := none } a o pat hst h.buf h.xm
+  rw [show loopBound a = depthB (topCtx a).block + 1 from rfl, hil]
   unfold onRunTail
   simp only [hasAbort, List.any_nil, Bool.false_eq_true, ↓reduceIte, Bool.not_false, List.append_nil]
   have hu : ∀ (x : Option Time) (l : Time), ∃ t, upd x l = some t := by
